@@ -12,7 +12,7 @@ func init() {
 	registry["C16"] = func() *Property {
 		return &Property{
 			ID:          "C16",
-			Explanation: "The frame-height clause, decided by abstract interpretation of the layout code in a line-count domain (engine E8, lines.go): every string value is abstracted to the number of its lines as a linear form over symbols, slices of lines to their length, evaluated along each acyclic path with the branch facts of the path as hypotheses; transfer functions are summaries of strings.Count/Split/Join/Repeat/LastIndex/Contains, concatenation, slicing, unsigned subtraction (no wrap-around must be provable) and division/remainder by a constant (k·q + r = x). Decided: (R0) ansi.Height(x) is the number of lines of x; (R1) on every path of ansi.CenterVertically the result has exactly `height` lines, every slice expression is within bounds and every repeat count non-negative, and the rows above the centred text are floor((height − lines(centred))/2) — the spare rows are split evenly, the odd one below; (R2) ansi.ReplaceLastLine returns, on every non-panicking path, a text with as many lines as the original (which has at least two), made of the original up to its last line feed, a line feed and the replacement; (R3) every return of ui.(*State).view is such a result for uint(s.height), with the status line put in by ReplaceLastLine only; (R4) everything handed to the terminal callback is the result of view() on the same state. Assumed, from the property's own precondition: the terminal height is at least 2. Not decided: which item is the highlighted one and what the lines contain (values), behaviour for heights below 2, what the terminal does with the frame.",
+			Explanation: "The frame-height clause, decided by abstract interpretation of the layout code in a line-count domain (engine E8, lines.go): every string value is abstracted to the number of its lines as a linear form over symbols, slices of lines to their length, evaluated along each acyclic path with the branch facts of the path as hypotheses; transfer functions are summaries of strings.Count/Split/Join/Repeat/LastIndex/Contains, concatenation, slicing, unsigned subtraction (no wrap-around must be provable) and division/remainder by a constant (k·q + r = x). Decided: (R0) ansi.Height(x) is the number of lines of x; (R1) on every path of ansi.CenterVertically the result has exactly `height` lines, every slice expression is within bounds and every repeat count non-negative, and the rows above the centred text are floor((height − lines(centred))/2) — the spare rows are split evenly, the odd one below; (R2) ansi.ReplaceLastLine returns, on every non-panicking path, a text with as many lines as the original (which has at least two), made of the original up to its last line feed, a line feed and the replacement; (R3) every return of ui.(*State).view is such a result for uint(s.height), with the status line put in by ReplaceLastLine only; (R4) everything handed to the terminal callback is the result of view() on the same state, with no call in between; (R5) State.height is stored only from a parameter (the reported size), and on every path of SetWidthHeight the reported height is stored before a frame is emitted, or equals the stored one, or is below 2. Assumed, from the property's own precondition: the terminal height is at least 2. Not decided: which item is the highlighted one and what the lines contain (values), behaviour for heights below 2, what the terminal does with the frame.",
 			Assumptions: []string{"terminal height >= 2 (the property's precondition)", "semantics of strings.Count, Split, Join, Repeat, LastIndex, Contains as summarised in lines.go", "printRaw writes the frame unchanged apart from CR LF translation"},
 			Rules: []Rule{
 				{ID: "C16.R0", Title: "ansi.Height counts lines", Floor: 1, Run: c16R0},
